@@ -6,20 +6,27 @@ PROP = dict(
                 'combinations with values at the width-class edges), packed '
                 'pairs (every nibble level edge and unsupported pairs) and '
                 'cell-write histories on real matrices (<= 40 x 300 cells, '
-                'and the first rows / first columns of row 0 behind headers '
-                'of every width); whole-buffer diff after every write, '
-                'reference 2-D array, exact-size buffers; sanitised, '
+                'the first rows / first columns of row 0 behind headers of '
+                'every width, and the first and last columns of rows 0..2 of '
+                'sparsely mapped matrices with up to 2^41 cells); '
+                'whole-buffer diff after every write, reference 2-D array, '
+                'exact-size buffers; sanitised, '
                 'pinned-release and F16C builds; deterministic sweep of the '
                 'width grid and of small matrices'),
     level_note=('trusts the harness decoders, the little-endian reference '
                 'reader, the half->float reference conversion and the '
                 'compilers; cells of matrices too large to allocate are only '
-                'addressed in their first rows/columns'),
+                'addressed in their first rows and first/last columns (sparse '
+                'mappings are capped at 2^38 bytes, so rows >= 1 are reached '
+                'for column widths up to 5-6 bytes only); in a sparse mapping '
+                'only the pages of the header and of the addressed column '
+                'windows are compared'),
     rule=('case = pair headers (rows width 0..8, cols width 1..8, values at '
           'lo/hi/lo+1/hi-1/0x80.. /random inside the width class) | packed '
           'pairs (level 1..8 edges, or max >= 2^32) | matrix (declared shape, '
           'entry type bit/unsigned 1..8 bytes/float/double/half, prior '
-          'contents zeros/ones/random, up to 30 cell writes); non-trivial = '
+          'contents zeros/ones/random, dense / prefix / sparse mapping, up '
+          'to 30 cell writes); non-trivial = '
           'header with a width >= 3 bytes, or packed pair with max >= 256, or '
           'a cell write followed by a neighbour read in a matrix with >= 2 '
           'rows, or a bit cleared; distinct by hash of (rows, cols) resp. '
@@ -30,21 +37,26 @@ PROP = dict(
     required_classes=['hdr.rw0', 'hdr.rw8', 'hdr.cw5', 'hdr.cw8',
                       'packed.level8', 'packed.reject', 'mx.bit', 'mx.u8',
                       'mx.u64', 'mx.float', 'mx.double', 'mx.vector',
-                      'mx.rows2+', 'mx.colwidth5+', 'bit.cleared',
+                      'mx.rows2+', 'mx.colwidth5+', 'mx.sparse.colwidth5+',
+                      'cell.sparse.row1+', 'bit.cleared',
                       'bit.toggle', 'cell.lastrow', 'cell.lastcol'],
     assumptions=COMMON_ASSUME + [
         'cols >= 1 for every header; packed pairs may be (0,0)',
         'matrix buffers hold header + rows*cols*entry bytes (bits: rounded '
         'up to a byte) and the dimension value passed to the cell accessors '
         'is the one returned by varintDimensionPairEncode',
-        'cell coordinates are inside the allocated part of the matrix; with '
-        'a declared column count too large to allocate only row 0 is '
-        'addressed, with a vector (rows == 0) only row 0',
+        'cell coordinates are inside the part of the matrix that exists; '
+        'with a declared column count too large to allocate either only row '
+        '0 is addressed (exact allocation) or rows 0..2 of a MAP_NORESERVE '
+        'mapping; with a vector (rows == 0) only row 0',
+        'a cell lives at header + (row*cols+col)*width (bits: in the byte '
+        'header + (row*cols+col)/8), as the accessor code and the header '
+        'comment on boolean matrices describe',
         'half-float cells exist only in builds with F16C (config simd); '
         'values written there are exactly representable halves (quiet NaNs '
         'only)',
-        'the position of a bit inside the data bytes and the byte order '
-        'inside an entry are not constrained, only that nothing outside the '
-        "cell's bytes (bits: exactly one bit) changes",
+        'the position of a bit inside its byte and the byte order inside '
+        'an entry are not constrained, only that nothing outside the '
+        "cell's bytes (bits: exactly one bit of its byte) changes",
     ],
 )
